@@ -27,6 +27,7 @@ def gen_cases(tier, seed, n_grammars, profiles=("general",), reprs=workload.REPR
                 "seed": rng.randrange(10**6),
                 "nops": rng.randint(*nops),
                 "search": (rng.choice(["gp", "rs", "hc", "opo"]) if with_search and rng.random() < 0.35 else None),
+                "retype": rng.random() < 0.2,
             }
 
 
@@ -57,6 +58,29 @@ def open_case(case, rec):
         rec.count("unproductive_grammar")
         return None
     return Ctx(case, built, g, model, md + case.get("extra_depth", 0), rec)
+
+
+def retyped_ctx(ctx: Ctx):
+    """The documented idiom `Prod.__init__.__annotations__[field] = NewType` + a new extraction, applied to the SAME
+    class objects: returns the context of the re-declared grammar (None if no field can be re-declared or the new
+    grammar is not usable). Anything the library remembered about the old declaration must not survive."""
+    rng = pyrandom.Random(ctx.case["seed"] + 99)
+    d2 = grammars.retyped(ctx.built.desc, rng)
+    if d2 is None:
+        return None
+    built2 = grammars.apply_retype(ctx.built, d2)
+    try:
+        g2 = grammars.extract(built2)
+    except BaseException as e:  # noqa
+        ctx.rec.count("extract_failed")
+        ctx.rec.violation(f"exc:extract_grammar:{type(e).__name__}@{core.exc_site(e)}", {"error": core.short(e), "after": "re-declared field"})
+        return None
+    md = g2.get_min_tree_depth()
+    if md >= 1000000:
+        return None
+    case2 = dict(ctx.case, desc=d2)
+    model2 = refmodel.Model(built2.classes, built2.start, expansion=bool(d2.get("expansion")))
+    return Ctx(case2, built2, g2, model2, md + ctx.case.get("extra_depth", 0), ctx.rec)
 
 
 def run_session(ctx: Ctx, on_event, before=None, on_search_program=None):
